@@ -97,6 +97,11 @@ static void pgen_key(phist *h, vh_rng *r, unsigned g)
     o->rounds = c->id == CIPH_MANTIS ? 5 + vh_below(r, 4) : 0;
     h->mode[h->n - 1] = vh_below(r, 2) ? MANTIS_ENCRYPT : MANTIS_DECRYPT;
     vh_fill_interesting(r, buf, o->len);
+    if (!vh_below(r, 5)) {      /* a key this object has had before (same bytes; length, rounds and mode drawn afresh): "already loaded" shortcuts must still honour everything that changed */
+        int k, cand[16], nc = 0;
+        for (k = 0; k < h->n - 1 && nc < 16; ++k) if (h->ops[k].kind == P_SET_KEY && !(h->ops[k].flags & F_NULL_PTR) && h->ops[k].dlen >= c->bb && !h->ops[k].injected) cand[nc++] = k;
+        if (nc) { const cop *q = &h->ops[cand[vh_below(r, (uint32_t)nc)]]; unsigned n = q->dlen < o->len ? q->dlen : o->len; if (vh_below(r, 2)) o->len = q->len <= c->key_max ? q->len : o->len; n = q->dlen < o->len ? q->dlen : o->len; memcpy(buf, h->pool + q->doff, n); o->cls = "set_key(a key used before)"; }
+    }
     o->doff = (uint32_t)h->pool_n; memcpy(h->pool + h->pool_n, buf, o->len); h->pool_n += o->len; o->dlen = o->len;
     pplace(o, r, g);
 }
@@ -121,6 +126,20 @@ static void pgen_crypt(phist *h, vh_rng *r, unsigned g, uint32_t *budget)
     o->len = bytes; o->dlen = bytes * per;
     o->doff = (uint32_t)h->pool_n;
     if (vh_below(r, 8)) vh_rand_bytes(r, h->pool + h->pool_n, o->dlen); else memset(h->pool + h->pool_n, vh_below(r, 2) ? 0 : 0xFF, o->dlen);
+    if (per == 2 && bytes && vh_below(r, 5) < 2) {
+        /* structured Mantis tweak arrays: all tweaks equal a base tweak except inside a window of 1..4 bytes, which holds the
+           block number (big- or little-endian, from a random start) or random bytes: sector/block-number tweaks, and arrays whose
+           tweaks agree in most byte positions */
+        uint8_t base[8], *tw = h->pool + h->pool_n + bytes; unsigned w = 1 + vh_below(r, 4), pos = vh_below(r, 9 - w), kind = vh_below(r, 4), b, k;
+        uint32_t start = vh_below(r, 3) ? vh_below(r, 1000) : vh_rand(r) & 0xFFFFFFFFu;
+        vh_fill_interesting(r, base, 8);
+        for (b = 0; b < nb; ++b) {
+            uint32_t v = kind == 3 ? (uint32_t)vh_rand(r) : start + b;
+            memcpy(tw + 8 * b, base, 8);
+            if (kind == 2) continue;                                   /* one tweak for every block */
+            for (k = 0; k < w; ++k) tw[8 * b + pos + k] = (uint8_t)(kind == 0 ? v >> (8 * (w - 1 - k)) : v >> (8 * k));
+        }
+    }
     h->pool_n += o->dlen;
     if (!vh_below(r, 3)) o->flags |= F_INPLACE;
     if (per == 2 && bytes) {     /* Mantis: aliasing of the tweak array with the data buffers */
